@@ -2,7 +2,7 @@
    keeps per-flow order, transmits every accepted packet exactly once, and its counters are exact.
    Only statements, closed by the lemma that proves them, and their assumptions.  Model: Elem/DRR.v. *)
 From Coq Require Import ZArith QArith List Bool.
-From ONL Require Import Elem.Packet Elem.StoreQ Elem.DRR Elem.DRRInv Elem.DRRProofs.
+From ONL Require Import Elem.Packet Elem.StoreQ Elem.DRR Elem.DRRInv Elem.DRRProofs Elem.DRRLive.
 Import ListNotations.
 
 (* whenever the clock may move on (nothing of the scheduler is due in the current instant) either a transmission is
@@ -57,3 +57,35 @@ Theorem C12_drr_counters : forall (cfg : dcfg) (t0 : Q) (acts : list daction) (d
   /\ dtotal d = Z.of_nat (length (dall_held cfg d)).
 Proof. exact drr_counters_l. Qed.
 Print Assumptions C12_drr_counters.
+
+(* back to back: d0 = a state in which a transmission has just ended; whatever happens next while the clock stands
+   still (acts1 contains no DAdvance), once the clock may move on (d1 not urgent) with a packet still held, a
+   transmission is in progress and it was started within acts1, i.e. at the very instant the previous one ended *)
+Theorem C12_drr_back_to_back : forall (cfg : dcfg) (t0 : Q) (acts0 : list daction) (d0 : drr) (tr0 : list dtev)
+    (acts1 : list daction) (d1 : drr) (tr1 : list dtev) (p0 : pkt),
+  dwf cfg -> drr_run cfg (drr0 t0) acts0 = Some (d0, tr0) -> dchd d0 = DCDone p0 ->
+  drr_run cfg d0 acts1 = Some (d1, tr1) -> (forall t, ~ In (DAdvance t) acts1) ->
+  durgent cfg d1 = false -> (exists c, dheld cfg d1 c <> []) ->
+  exists p dl, dchd d1 = DCTx p dl /\ In DChildInit acts1 /\ dnow d1 = dnow d0 /\ dnow d1 < dl.
+Proof. exact drr_back_to_back_l. Qed.
+Print Assumptions C12_drr_back_to_back.
+
+(* no error state is reachable and run() never spins: in every reachable state every action whose kernel-level guard
+   holds (Initialize pending, a granted get, the child's Initialize / due timeout / Process event, a pending StorePut,
+   a put() of a configured class, a clock move that passes no deadline) is accepted by the model; in particular the
+   round loop always reaches a yield (the fuel of dpasses suffices) *)
+Theorem C12_drr_progress : forall (cfg : dcfg) (t0 : Q) (acts : list daction) (d : drr) (tr : list dtev),
+  dwf cfg -> drr_run cfg (drr0 t0) acts = Some (d, tr) ->
+  (dctrl d = DKFresh -> exists r, drr_act cfg d DInit = Some r)
+  /\ (forall x, get (dtok d) = GGranted x -> exists r, drr_act cfg d (DGetDone None) = Some r)
+  /\ (forall c x, get (dst d c) = GGranted x -> exists r, drr_act cfg d (DGetDone (Some c)) = Some r)
+  /\ (forall p, dchd d = DCStart p -> exists r, drr_act cfg d DChildInit = Some r)
+  /\ (forall p dl, dchd d = DCTx p dl -> dl == dnow d -> exists r, drr_act cfg d DChildTimer = Some r)
+  /\ (forall p, dchd d = DCDone p -> exists r, drr_act cfg d DChildEnd = Some r)
+  /\ ((pend (dtok d) > 0)%nat -> exists r, drr_act cfg d (DStoreCb None) = Some r)
+  /\ (forall c, In c (dclasses cfg) -> (pend (dst d c) > 0)%nat -> exists r, drr_act cfg d (DStoreCb (Some c)) = Some r)
+  /\ (forall p, In (dcls cfg p) (dclasses cfg) -> (0 < psize p)%Z -> exists r, drr_act cfg d (DPut p) = Some r)
+  /\ (forall t, durgent cfg d = false -> dnow d < t -> (forall p dl, dchd d = DCTx p dl -> t <= dl) ->
+      exists r, drr_act cfg d (DAdvance t) = Some r).
+Proof. exact drr_progress_l. Qed.
+Print Assumptions C12_drr_progress.
